@@ -66,7 +66,7 @@ theorem emit_ignore (nm : NosecMap) (ctx : Ctx) (raw : Raw) :
 theorem runCheck_ignore (nm : NosecMap) (env : Env) (c : Check) :
     runCheck [] env c = (runCheck nm env c).map Event.asFinding := by
   unfold runCheck
-  cases c.run env with
+  cases c.run (env.forCheck c) with
   | error _ => rfl
   | ok r =>
     cases r with
